@@ -21,6 +21,7 @@ func init() {
 			"R03.4 reflect operations that assert a kind on a value derived from the spec's default are enumerated (typestate on the reflect API): the kind-safe ones are tabled, the ones that panic for declarations the language allows are KNOWN FINDINGS; R03.5 numeric texts are parsed in base 10 at 64 bits and stored only after the parse succeeded and target.Overflow* said no; " +
 			"R03.6 every binder error is returned or appended to the 422 accumulator, every bound value is validated when a validator exists, validation failures are recorded, and binder errors reach validation.result; R03.7 each location reads its own source (query: URL.Query(), header: Header, path: route params, formData: MultipartForm.Value / PostForm), an unknown location is an error, and 'multi' is honoured only where allowed; R03.8 index expressions of the binding helpers are in range. " +
 			"R03.3 also: the element type of an array is computed from the items' own type, format and nested items. " +
+			"R03.7 also: a scalar is bound from data[len(data)-1] (last occurrence) and path parameters from the router's PathUnescape of the captured text (decoded once). " +
 			"NOT decided: what strconv/swag denote for a literal, the validation rules themselves (go-openapi/validate), default substitution values.",
 		Assumptions: []string{"runtime.Gettable implementations report hasValue only with a non-empty value slice (Values.GetOK and RouteParams.GetOK are checked)"},
 		Run:         runC03,
